@@ -182,13 +182,25 @@ def check(run, replay=None):
         rng.shuffle(rest)
         qcells = keep[::2] + keep[1::4] + rest[:260]
     cells += qcells
+    # a conversion is a function of its arguments, not of the calls made before it: the same scalar conversion with the optional arguments
+    # alternating (Darcy-Weisbach roughness on / off; mass units and reaction order of the reaction coefficients), in one process
+    forced_scalar = set()
+    for u in fus:
+        for d in ("to", "from"):
+            for dw in (False, True, False, True):
+                forced_scalar.add(len(cells))
+                cells.append(("hyd", "RoughnessCoeff", u, dw, None, d))
+        for pq in ("BulkReactionCoeff", "WallReactionCoeff"):
+            for (m_, o_) in ((mus[0], 0), (mus[-1], 1), (mus[0], 2), (mus[-1], 0)):
+                forced_scalar.add(len(cells))
+                cells.append(("qual", pq, u, m_, o_, "to"))
     reps = 3 if thorough else 1
     cases, meta = [], {}
     cid = 0
     for rep in range(reps):
         for ci, cell in enumerate(cells):
             fam, p, u, a, b, d = cell
-            kind = kinds[(ci + rep + (run.seed % 4)) % 4]
+            kind = "scalar" if ci in forced_scalar else kinds[(ci + rep + (run.seed % 4)) % 4]
             nvals = 1 if kind == "scalar" else rng.randint(1, 3)
             vals = [rand_value(rng) for _ in range(nvals)]
             inp = make_container(kind, vals, np, pd)
